@@ -1,6 +1,7 @@
 package mon
 
 import (
+	"encoding/json"
 	"fmt"
 	"strings"
 
@@ -315,6 +316,69 @@ func c10Tight(c *Ctx, idx int) {
 	}
 }
 
+// c10ParenOverride: x op1 (y op2 z) and (x op1 y) op2 z over operands for which regrouping
+// changes the value (decimal rounding at 34 digits, overflow, binary rounding of Go floats):
+// the parenthesised group must be evaluated as a unit.  Oracles: the model where it decides,
+// and the library against itself with the group bound to a let variable first
+// (let $t = y op2 z in x op1 $t), which is the same computation spelled without parentheses.
+var c10RoundPool = []string{"0.5", "1e34", "-1e34", "9999999999999999999999999999999999", "-9999999999999999999999999999999999", "1", "3", "0.1", "0.2", "0.3", "7", "1e33", "0.3333333333333333333333333333333333", "1e6000", "1e-6000", "0", "-1", "2", "1e6144", "5e-1", "1e17", "0.1e-17", "123456789012345678901234567890.1234"}
+var c10FloatPool = []float64{0.1, 0.2, 0.3, 1e308, 1e-308, 3, 1e16, 1, 0.5, 1e17, 7, 1.1, 2.2, 1e200, 1e-200, 0}
+
+func c10ParenOverride(c *Ctx, idx int) {
+	r := c.Rand("")
+	ops := []string{"+", "-", "*", "×", "/", "−"}
+	op1, op2 := gen.Pick(r, ops), gen.Pick(r, ops)
+	if idx%3 == 0 {
+		op2 = op1 // the same operator on both sides: the case an evaluator may flatten
+	}
+	floats := idx%4 == 1
+	doc := map[string]any{}
+	mdoc := ref.NewObj()
+	for _, k := range []string{"x", "y", "z", "w"} {
+		if floats {
+			doc[k] = gen.Pick(r, c10FloatPool)
+		} else {
+			t := gen.Pick(r, c10RoundPool)
+			if idx%4 == 3 {
+				doc[k] = decimalMode(gen.Num(t))
+			} else {
+				doc[k] = json.Number(t)
+			}
+			mdoc.Set(k, gen.Num(t))
+		}
+	}
+	forms := []struct{ paren, viaLet string }{
+		{"x " + op1 + " (y " + op2 + " z)", "let $t = y " + op2 + " z in x " + op1 + " $t"},
+		{"(x " + op1 + " y) " + op2 + " z", "let $t = x " + op1 + " y in $t " + op2 + " z"},
+		{"x " + op1 + " (y " + op2 + " (z " + op1 + " w))", "let $u = z " + op1 + " w in let $t = y " + op2 + " $u in x " + op1 + " $t"},
+		{"x " + op1 + " (y " + op2 + " z) " + op1 + " w", "let $t = y " + op2 + " z in x " + op1 + " $t " + op1 + " w"},
+		{"[x " + op1 + " (y " + op2 + " z)]", "[let $t = y " + op2 + " z in x " + op1 + " $t]"},
+		{"xs[?@ " + op1 + " ($.y " + op2 + " $.z) > `0`]", "let $t = y " + op2 + " z in xs[?@ " + op1 + " $t > `0`]"},
+	}
+	doc["xs"] = []any{doc["x"], doc["w"]}
+	mdoc.Set("xs", &ref.Arr{E: []ref.V{mdoc.M["x"], mdoc.M["w"]}})
+	for _, f := range forms {
+		l1 := c.LibSearch(f.paren, doc)
+		l2 := c.LibSearch(f.viaLet, doc)
+		if l1.Panic != nil || l2.Panic != nil {
+			continue
+		}
+		if !SameOutcome(l1, l2, false) {
+			c.Report(Violation{Rule: "C10/parentheses-override", Expr: f.paren, Data: gen.Describe(doc), Got: ShowOut(l1), Want: ShowOut(l2) + " (result of " + f.viaLet + ")", Features: map[string]string{"operators": op1 + " " + op2, "floats": fmt.Sprint(floats)}})
+		}
+		if !floats {
+			if m := ref.Search(f.paren, mdoc); !m.Unspec {
+				if judged, ok, why := Agree(m, l1); judged && !ok {
+					c.Report(Violation{Rule: "C10/model", Expr: f.paren, Data: gen.Describe(doc), Got: ShowOut(l1), Want: m.String(), Detail: why, Features: map[string]string{"stream": "paren-override"}})
+				}
+			}
+		}
+		if l1.Err == nil && l1.M != nil {
+			c.Nontrivial(f.paren, gen.Describe(doc))
+		}
+	}
+}
+
 // c10Literals: chains of arithmetic and comparison operators over a mix of
 // fields and literal numbers, some at the machine-width boundaries: a parser
 // that folds or regroups constant operands must still produce the value of
@@ -396,7 +460,7 @@ func c10Literals(c *Ctx, idx int) {
 func init() {
 	Register(&Property{
 		ID:            "C10",
-		Rule:          "unparenthesised chains of binary operators: all 18x18 ordered pairs (with and without unary prefixes !, -, +, U+2212 on operands) and all 18^3 ordered triples (thorough; a seeded sample in quick) of the operator spellings | || && == != < <= > >= + - U+2212 * U+00D7 / U+00F7 // % around operands drawn from fields, literals, selectors, function calls, parenthesised expressions and projections; for each chain the generator searches documents on which the specified grouping gives a value that every other binary-tree grouping does not (only such distinguishing instances count); checks: compiled tree of the chain = compiled tree of the chain with the implied parentheses written out (AST fingerprint hook; decides groupings no document can distinguish), library(chain) = model(chain), library(chain) = library(chain with the implied parentheses written out), and every alternative grouping written with explicit parentheses = model; plus selectors/unary operators against every binary operator; literals stream: chains of 3-5 arithmetic/comparison operators over a mix of fields and literal numbers (incl. 2^31, 2^32, ~3.04e9, 4e9, 2^53+1, 2^63-1, -2^63, 10^19-1): value = model, = the same chain with implied parentheses, = the same chain with every literal moved into the document",
+		Rule:          "unparenthesised chains of binary operators: all 18x18 ordered pairs (with and without unary prefixes !, -, +, U+2212 on operands) and all 18^3 ordered triples (thorough; a seeded sample in quick) of the operator spellings | || && == != < <= > >= + - U+2212 * U+00D7 / U+00F7 // % around operands drawn from fields, literals, selectors, function calls, parenthesised expressions and projections; for each chain the generator searches documents on which the specified grouping gives a value that every other binary-tree grouping does not (only such distinguishing instances count); checks: compiled tree of the chain = compiled tree of the chain with the implied parentheses written out (AST fingerprint hook; decides groupings no document can distinguish), library(chain) = model(chain), library(chain) = library(chain with the implied parentheses written out), and every alternative grouping written with explicit parentheses = model; plus selectors/unary operators against every binary operator; literals stream: chains of 3-5 arithmetic/comparison operators over a mix of fields and literal numbers (incl. 2^31, 2^32, ~3.04e9, 4e9, 2^53+1, 2^63-1, -2^63, 10^19-1): value = model, = the same chain with implied parentheses, = the same chain with every literal moved into the document; paren-override stream: x op1 (y op2 z) and its variants over operands for which regrouping changes the value (34-digit rounding, overflow, binary rounding of Go floats), as json.Number / decimal128 / float64: value = model where decided, = the same computation with the group bound to a let variable first",
 		MinNontrivial: 500,
 		Streams: []Stream{
 			{Name: "pairs", N: func(c *Ctx) int { return 2 * len(c10Ops) * len(c10Ops) }, Run: c10Pairs, Exhaustive: true},
@@ -408,6 +472,7 @@ func init() {
 				return n * n * n / 3
 			}, Run: c10Triples},
 			{Name: "tight", N: func(c *Ctx) int { return tierN(c, 18*4, 18*40) }, Run: c10Tight},
+			{Name: "paren-override", N: func(c *Ctx) int { return tierN(c, 20000, 2000000) }, Run: c10ParenOverride},
 			{Name: "literals", N: func(c *Ctx) int { return tierN(c, 20000, 3000000) }, Run: c10Literals},
 		},
 	})
